@@ -33,8 +33,15 @@ RULE = (
     "length / area (interval intersection; exact convex clipping); 'averaged' rows and 'integrated' columns sum to "
     "1 (max(1e-9, 1e-10 * domain / cell measure)), entries >= 0; scaling None = 0/1 pattern of pairs with exact overlap > tol; surface_tessellations: "
     "every output cell maps to exactly one cell of each input set, and the areas mapped to an "
-    "input cell sum to its area. Non-trivial = the two tessellations differ and each has >= 2 cells; distinct = "
-    "hash of spec."
+    "input cell sum to its area. History class (families history_1d / history_2d, 2 cases in 7): a pool of 2-3 grid "
+    "OBJECTS tessellating the same segment / polygon and a generated sequence of 2-5 matchings (match_1d / match_2d, "
+    "any scaling) over ordered pairs of the pool; between matchings a grid may be modified in place keeping its "
+    "topology (1-d: interior nodes re-drawn; 2-d: an interior node displaced on the 1/16 lattice so that every "
+    "incident triangle keeps its orientation; then compute_geometry()); the same pair is matched repeatedly (same "
+    "or swapped argument order) with or without other pairs in between; the pattern match (i,j) - move nodes of i "
+    "or j - match (i,j) again is forced in half of the histories. After every matching the full matrix oracle is "
+    "applied with the exact overlaps of the grids as they are at that time. Non-trivial = the two tessellations "
+    "differ and each has >= 2 cells (histories: a node was moved or >= 3 matchings); distinct = hash of spec."
 )
 BUDGET = {"quick": {"cases": 3200, "seconds": 35}, "thorough": {"cases": 120000, "seconds": 1100}}
 TECHNIQUE = ("property-based testing (Hypothesis): partition-of-measure invariants and exact pairwise overlaps "
@@ -42,7 +49,8 @@ TECHNIQUE = ("property-based testing (Hypothesis): partition-of-measure invarian
 LEVEL_TEXT = ("Exploration: thousands of generated pairs of 1-d tessellations of a common (embedded) segment and "
               "hundreds to thousands of pairs / triples of Delaunay triangulations of a common convex polygon per "
               "run; overlaps, cell-wise sums and the averaged / integrated matching matrices are compared with "
-              "exact rational measures.")
+              "exact rational measures; generated histories of matchings over a pool of grid objects that are modified "
+              "in place between matchings check that every matching reflects the current geometry.")
 LEVEL_NOTE = ("Coordinates are dyadic rationals (1/64 of the segment, 1/16 lattice in 2-d), cells are not smaller than "
               "1e-2 of the domain, so the absolute 1e-8 tolerances inside segments_3d / shapely's robustness are not "
               "stressed. 2-d domains are convex; triangulations come from scipy (qhull) and are verified exactly "
@@ -53,17 +61,21 @@ ASSUMPTIONS = [
     "1-d grids are TensorGrids whose node array is replaced by the embedded coordinates (as the repository tests do)",
     "2-d grids are TriangleGrids with counter-clockwise cells",
     "qhull triangulations that do not tile the polygon exactly are counted and skipped (label tri-invalid)",
+    "histories: grids are modified in place only by moving nodes (same cells, same connectivity) followed by "
+    "compute_geometry(), as the repository's own tests do; replacing the topology of a grid object is not generated",
 ]
-FNS = ["line_tessellation", "match_1d", "triangulations", "surface_tessellations", "match_2d"]
+FNS = ["line_tessellation", "match_1d", "triangulations", "surface_tessellations", "match_2d", "history_1d", "history_2d"]
 # Cases excluded by an open finding carry no labels, so the thresholds of the three-set family are set for the state
 # with C33-surface-tessellations-third-set-shared-edge open (it excludes most three-set cases; observed fractions of
 # the counted cases: st-three-sets 2 %, st-simplexes 8 %).  match_2d is searched in full (the overlay-collapse finding
 # is fixed): observed match_2d 20 %, match2d-rotated 10 %, match2d-hanging-node 12 %.
 REQUIRED = {
-    "line_tessellation": 0.1, "match_1d": 0.1, "triangulations": 0.1, "surface_tessellations": 0.08, "match_2d": 0.1,
+    "line_tessellation": 0.08, "match_1d": 0.08, "triangulations": 0.08, "surface_tessellations": 0.06, "match_2d": 0.08,
     "1d-shared-nodes": 0.05, "1d-skew-line": 0.05, "1d-axis-line": 0.03, "2d-shared-nodes": 0.03,
     "2d-boundary-nodes": 0.03, "2d-valid": 0.25, "match2d-rotated": 0.04, "match2d-hanging-node": 0.05,
-    "match2d-rotated-hanging-node": 0.02, "st-three-sets": 0.005, "st-simplexes": 0.02,
+    "match2d-rotated-hanging-node": 0.015, "st-three-sets": 0.004, "st-simplexes": 0.015,
+    "history": 0.15, "history_1d": 0.06, "history_2d": 0.06, "history-moved-nodes-same-pair": 0.05,
+    "history-same-pair-twice": 0.05, "history-other-pair-between": 0.006,
 }
 RT = 1e-10
 
@@ -134,8 +146,79 @@ def _inner(D, H, n, shared):
     return out
 
 
+def _history_ops(D, ng, move):
+    """2-5 matchings over a pool of ng grids; between matchings a grid may be modified in place (`move(D, g)` draws
+    the modification).  The pattern the class exists for - match (i, j), move nodes of i or j, match (i, j) again
+    in the same argument order with nothing in between - is forced in half of the histories; otherwise the next
+    pair is the previous one (same or swapped order) or any other pair."""
+    ops = []
+    pairs = [(i, j) for i in range(ng) for j in range(ng) if i != j]
+    prev = None
+    forced = D.bool()
+    for k in range(D.int(2, 5)):
+        if prev is not None:
+            if forced and k == 1:
+                ops.append(["move", D.choice(list(prev))] + move(D, D.choice(list(prev))))
+            elif D.below(2) == 0:
+                g = D.below(ng)
+                ops.append(["move", g] + move(D, g))
+        if prev is None:
+            pair = D.choice(pairs)
+        elif forced and k == 1:
+            pair = prev
+        else:
+            c = D.below(4)
+            pair = prev if c <= 1 else (prev[1], prev[0]) if c == 2 else D.choice(pairs)
+        ops.append(["match", pair[0], pair[1], D.choice(["averaged", "integrated", "averaged", "integrated", None])])
+        prev = pair
+    return ops
+
+
+def _build_history(fn, D):
+    s = {"fn": fn}
+    ng = D.int(2, 3)
+    if fn == "history_1d":
+        a = D.vec(3, 3)
+        s["a"], s["b"] = a, lt.add(a, D.vec(3, 3, True))
+        ks = []
+        for _ in range(ng):
+            ks.append([0] + sorted({D.int(1, 63) for _ in range(D.int(1, 5))}) + [64])
+        s["k"] = ks
+        s["rev"] = [D.bool() for _ in range(ng)]
+
+        def move(D, g):
+            # new interior nodes, same number of cells (the topology of the grid object is kept)
+            n = len(ks[g]) - 2
+            pool = D.perm(63)[:n]
+            return [[0] + sorted(v + 1 for v in pool) + [64]]
+
+        s["ops"] = _history_ops(D, ng, move)
+    else:
+        H = _hull(D)
+        s["hull"] = H
+        inner = [_inner(D, H, D.int(1, 4), [])]
+        for _ in range(ng - 1):
+            inner.append(_inner(D, H, D.int(1, 4), inner[0]))
+        s["inner"] = inner
+        s["rot"] = [D.int(-3, 3), D.int(-3, 3), D.int(-3, 3), D.int(0, 7)] if D.below(3) == 0 else None
+        s["shift"] = D.vec(3, 2)
+
+        def move(D, g):
+            # a node of the node set of grid g (index into inner[g]) and candidate displacements on the 1/16
+            # lattice; check() applies the first one that keeps every incident triangle positively oriented
+            # (the node must be interior; otherwise, or if no candidate is valid, the move is a no-op)
+            cands = [[dx, dy] for dx in (-3, -2, -1, 0, 1, 2, 3) for dy in (-3, -2, -1, 0, 1, 2, 3) if dx or dy]
+            order = D.perm(len(cands))[:8]
+            return [D.below(max(1, len(inner[g]))), [cands[i] for i in order]]
+
+        s["ops"] = _history_ops(D, ng, move)
+    return s
+
+
 def build(fn, n):
     D = Digits(n)
+    if fn.startswith("history"):
+        return _build_history(fn, D)
     s = {"fn": fn}
     if fn in ("line_tessellation", "match_1d"):
         a = D.vec(3, 3)
@@ -445,11 +528,169 @@ KNOWN = {
 }
 
 
+# ----------------------------------------------------------------------------- histories
+def _history_labels(ops, changed):
+    """changed[k] is True for a move op that really changed node coordinates."""
+    labels = ["history"]
+    last = None          # (pair, index of the op)
+    moved_since = set()  # grids really modified since the last matching
+    between = False
+    seen_pairs = []
+    for k, op in enumerate(ops):
+        if op[0] == "move":
+            if changed.get(k):
+                moved_since.add(op[1])
+            continue
+        pair = (op[1], op[2])
+        if last is not None and pair == last:
+            labels.append("history-same-pair-twice")
+            if moved_since & set(pair):
+                labels.append("history-moved-nodes-same-pair")
+        if pair in seen_pairs and last is not None and pair != last:
+            labels.append("history-other-pair-between")
+        if last is not None and pair == (last[1], last[0]):
+            labels.append("history-swapped-pair")
+        seen_pairs.append(pair)
+        last = pair
+        moved_since = set()
+    if any(changed.values()):
+        labels.append("history-nodes-moved")
+    return labels
+
+
+def _check_history(s):
+    import porepy as pp
+
+    fn = s["fn"]
+    ops = s["ops"]
+    changed = {}
+    if fn == "history_1d":
+        a, b = eg.pt(s["a"]), eg.pt(s["b"])
+        L = math.sqrt(float(eg.norm2(eg.sub(b, a))))
+        d = [y - x for x, y in zip(s["a"], s["b"])]
+
+        def coords(ks, rev):
+            c = np.array([[s["a"][m] + k * d[m] / 64.0 for k in ks] for m in range(3)])
+            return c[:, ::-1].copy() if rev else c
+
+        ks = [list(k) for k in s["k"]]
+        grids = []
+        for k, rev in zip(ks, s["rev"]):
+            g = pp.TensorGrid(np.array(k, dtype=float) / 64.0)
+            g.nodes = coords(k, rev)
+            g.compute_geometry()
+            grids.append(g)
+
+        def measures(i):
+            m = [(ks[i][c + 1] - ks[i][c]) * L / 64.0 for c in range(len(ks[i]) - 1)]
+            return m[::-1] if s["rev"][i] else m
+
+        def exact(i, j):
+            ex = np.array([[max(0, min(ks[i][p + 1], ks[j][q + 1]) - max(ks[i][p], ks[j][q])) * L / 64.0
+                            for q in range(len(ks[j]) - 1)] for p in range(len(ks[i]) - 1)])
+            if s["rev"][i]:
+                ex = ex[::-1, :]
+            if s["rev"][j]:
+                ex = ex[:, ::-1]
+            return ex
+
+        for k, op in enumerate(ops):
+            if op[0] == "move":
+                g, new = op[1], op[2]
+                if len(new) == len(ks[g]) and new != ks[g]:
+                    ks[g] = list(new)
+                    grids[g].nodes = coords(ks[g], s["rev"][g])  # in place: same object, same topology
+                    grids[g].compute_geometry()
+                    changed[k] = True
+                continue
+            i, j, scaling = op[1], op[2], op[3]
+            mn, mo = measures(i), measures(j)
+            if not np.max(np.abs(grids[i].cell_volumes - np.array(mn))) <= RT * L:
+                raise HarnessError(f"1-d history grid {i}: volumes {grids[i].cell_volumes.tolist()} expected {mn}")
+            M = pp.match_grids.match_1d(grids[i], grids[j], 1e-4 * L, scaling)
+            _matrix_check(M, exact(i, j), scaling, mn, mo, L, 1e-4 * L, "history-1d",
+                          f"history_1d op {k} {op} of {ops}; k={ks} rev={s['rev']} a={s['a']} b={s['b']}")
+        nontrivial = any(changed.values()) or len(ops) >= 3
+    else:
+        H = s["hull"]
+        HE = [eg.pt(p) for p in H]
+        dom = float(abs(eg.polygon_area2_2d(HE))) / 2 / 256.0
+        T = [_triangulate(H, inner) for inner in s["inner"]]
+        if any(t is None for t in T):
+            return {"labels": [fn, "tri-invalid"], "nontrivial": False}
+        pts = [[list(p) for p in t[0]] for t in T]          # current node positions (1/16 lattice), per grid
+        tris = [[list(x) for x in t[1]] for t in T]         # fixed connectivity
+        nh = len(H)
+        spec2 = {"rot": s["rot"], "shift": s["shift"]}
+        grids = [_grid2d(spec2, (pts[g], tris[g], None)) for g in range(len(T))]
+
+        def exact_tris(g):
+            E = [eg.pt(p) for p in pts[g]]
+            # cells in the order of the TriangleGrid: _grid2d keeps the order of `tris`
+            return [_ccw([E[i] for i in t]) for t in tris[g]]
+
+        def place(g):
+            P = np.vstack((np.array(pts[g], dtype=float).T / 16.0, np.zeros(len(pts[g]))))
+            if s["rot"] is not None:
+                ax = np.array(s["rot"][:3], dtype=float)
+                if not ax.any():
+                    ax = np.array([1.0, 0, 0])
+                R = pp.map_geometry.rotation_matrix(s["rot"][3] * np.pi / 8 + 0.1, ax / np.linalg.norm(ax))
+                P = R @ P + np.array(s["shift"], dtype=float).reshape((3, 1))
+            grids[g].nodes = P  # in place: same object, same topology
+            grids[g].compute_geometry()
+
+        for k, op in enumerate(ops):
+            if op[0] == "move":
+                g, vi, cands = op[1], op[2], op[3]
+                if vi >= len(s["inner"][g]):
+                    continue
+                v = nh + vi
+                old = pts[g][v]
+                if any(eg.point_on_segment(eg.pt(old), HE[e], HE[(e + 1) % nh]) for e in range(nh)):
+                    continue  # boundary node: not moved
+                inc = [t for t in tris[g] if v in t]
+                E = [eg.pt(p) for p in pts[g]]
+                sign0 = [eg.orient2d(*[E[i] for i in t]) for t in inc]
+                for dx, dy in cands:
+                    new = [old[0] + dx, old[1] + dy]
+                    if new in pts[g]:
+                        continue
+                    E[v] = eg.pt(new)
+                    if all(eg.orient2d(*[E[i] for i in t]) == s0 for t, s0 in zip(inc, sign0)):
+                        pts[g][v] = new
+                        place(g)
+                        changed[k] = True
+                        break
+                continue
+            i, j, scaling = op[1], op[2], op[3]
+            Ti, Tj = exact_tris(i), exact_tris(j)
+            mn = [float(abs(eg.polygon_area2_2d(t))) / 2 / 256.0 for t in Ti]
+            mo = [float(abs(eg.polygon_area2_2d(t))) / 2 / 256.0 for t in Tj]
+            exm = np.array([[float(_clip_area2(t1, t2)) / 2 / 256.0 for t2 in Tj] for t1 in Ti])
+            if not np.max(np.abs(grids[i].cell_volumes - np.array(mn))) <= 1e-9 * dom:
+                raise HarnessError(f"2-d history grid {i}: volumes {grids[i].cell_volumes.tolist()} expected {mn}")
+            M = pp.match_grids.match_2d(grids[i], grids[j], 1e-6 * dom, scaling)
+            if scaling is None:
+                pos = exm[exm > 0]
+                if pos.size and pos.min() < 1e-4 * dom:
+                    continue
+            _matrix_check(M, exm, scaling, mn, mo, dom, 1e-6 * dom, "history-2d",
+                          f"history_2d op {k} {op} of {ops}; hull={H} nodes={pts} rot={s['rot']}")
+        nontrivial = any(changed.values()) or len(ops) >= 3
+    labels = [fn] + _history_labels(ops, changed)
+    if fn == "history_2d" and s["rot"] is not None:
+        labels.append("history-2d-rotated")
+    return {"labels": sorted(set(labels)), "nontrivial": bool(nontrivial)}
+
+
 # ----------------------------------------------------------------------------- check
 def check(s):
     import porepy as pp
 
     fn = s["fn"]
+    if fn.startswith("history"):
+        return _check_history(s)
     labels = [fn]
 
     if fn in ("line_tessellation", "match_1d"):
